@@ -307,6 +307,26 @@ def h_external(ctx, L, with_meta, stream_len=5):
             ctx.claim('rows_%d_%d_get_different_seeds' % (i, j), Not(seeds[i] == seeds[j]))
 
 
+def h_prepare_seed_history(ctx, stream_len=4):
+    """The seed for (generator, row) must not depend on which (generator, row) pairs were served before: calls for
+    another generator's rows 0..j-1 (solver-chosen j) precede the call for row k of the generator under test."""
+    from harness.C15 import spec_value
+    high = 2 ** 31
+    stream = [ctx.int('s%d' % i, 0, high - 1) for i in range(stream_len)]
+    Stream.values = stream
+    Stream.created = 0
+    n_prev = ctx.choice('rows_served_before_for_another_generator', 3)
+    k = ctx.choice('row_index', 3)
+    sp = FakeSubprocess()
+    with ext_env(ctx, sp, []):
+        for j in range(n_prev):
+            tools.prepare_seed(random_state=FakeRS(SEED + 17), index_in_batch=j)
+        _, kw = tools.prepare_seed(random_state=FakeRS(SEED), index_in_batch=k)
+        _, kw2 = tools.prepare_seed(random_state=FakeRS(SEED), index_in_batch=k)
+    ctx.claim('seed_is_subseed_of_generator_word_and_row_whatever_was_served_before', spec_value(stream, k, kw['seed']))
+    ctx.claim('same_generator_and_row_give_the_same_seed_again', kw2['seed'] == kw['seed'])
+
+
 HARNESSES = [
     H('vectorize_arity1', h_vectorize, dict(arity=1), bounds='1 input: 5 kinds x length 1..3 x batch_size modes x dtype {None,False}'),
     H('vectorize_arity2', h_vectorize, dict(arity=2), bounds='2 inputs: 25 kind pairs x length 1..3 x batch_size modes x dtype'),
@@ -318,6 +338,8 @@ HARNESSES = [
       bounds='3 rows, per-row output value solver-chosen'),
     H('vectorize_history_arity2', h_vectorize_history, dict(arity=2),
       bounds='two consecutive calls of one vectorised operation, 2 inputs each scalar or 1-D batch or declared constant; mask None / list / tuple'),
+    H('prepare_seed_history', h_prepare_seed_history, dict(), bounds='0..2 rows of another generator served before row 0..2 of the '
+      'generator under test; symbolic draw stream of 4 values'),
     H('external_meta_L2', h_external, dict(L=2, with_meta=True), bounds='vectorised external command, 2 rows, node uses meta'),
     H('external_meta_L3', h_external, dict(L=3, with_meta=True, stream_len=6), bounds='3 rows, node uses meta', tiers=('thorough',)),
     H('external_nometa_L2', h_external, dict(L=2, with_meta=False), bounds='vectorised external command, 2 rows, node without meta',
